@@ -125,7 +125,3 @@ def shrink(ctx, f):
 def search(ctx):
     return run(ctx)
 
-
-def replay(ctx, path):
-    print(open(path).read()[:3000])
-    return 0
